@@ -9,7 +9,7 @@
   operation sequence: any number of lookups, locations, releases with any outcome, cancellations
   at any handle boundary, uncaches, in any interleaving.
 -/
-import Upnp.Lemmas.C18LiveStep
+import Upnp.Lemmas.C18SafeStep
 /-
   FULL-STRENGTH STATEMENT (not yet proved end to end):
 
